@@ -1,6 +1,7 @@
 //! l21h: shared driver for the per-property harness binaries (src/bin/cXX.rs).
 //! Each binary reads cases from stdin (one JSON value per line) and prints one JSON result per line.
-//! Panics are caught and reported as {"panic": msg}.
+//! Panics are caught and reported as {"panic": msg}. Result lines start with "@@" so that anything the
+//! library itself prints to stdout (some exporters use println!) can be told apart.
 pub use serde_json::{json, Value};
 use std::io::{BufRead, Write};
 use std::panic::{catch_unwind, AssertUnwindSafe};
@@ -19,7 +20,7 @@ pub fn main_loop(run: fn(&Value) -> Value) {
         let case: Value = match serde_json::from_str(&line) {
             Ok(v) => v,
             Err(e) => {
-                writeln!(out, "{}", json!({"harness_error": format!("bad case json: {}", e)})).unwrap();
+                writeln!(out, "@@{}", json!({"harness_error": format!("bad case json: {}", e)})).unwrap();
                 out.flush().unwrap();
                 continue;
             }
@@ -38,7 +39,7 @@ pub fn main_loop(run: fn(&Value) -> Value) {
                 json!({ "panic": msg })
             }
         };
-        writeln!(out, "{}", v).unwrap();
+        writeln!(out, "@@{}", v).unwrap();
         // flush per case so that a later abort (stack overflow) does not lose earlier results
         out.flush().unwrap();
     }
